@@ -17,8 +17,12 @@ pub const T_MXC: u32 = 32;
 pub const T_ANCHOR: u32 = 64; // push-rule edit script
 pub const T_GLOB: u32 = 128; // `pattern \n value` for glob / word matching
 
-pub const BYTE_KINDS: [&str; 6] = ["bitflip", "delete", "insert", "truncate", "dup_span", "splice"];
-const JSON_KINDS: [&str; 5] = ["json_delete_member", "json_dup_member", "json_type_swap", "json_long_string", "json_nest"];
+pub const BYTE_KINDS: [&str; 7] = ["bitflip", "delete", "insert", "truncate", "dup_span", "splice", "truncate_at_delim"];
+const JSON_KINDS: [&str; 6] = ["json_delete_member", "json_dup_member", "json_type_swap", "json_long_string", "json_nest", "json_string_edit"];
+/// Short strings that sit on the edges of the little grammars inside JSON string values.
+const STRING_TOKENS: [&str; 28] = [
+    "", "=", "==", "<", ">", "<=", ">=", "=\u{e9}", ".", "..", ".1", "v", "v1", "v1.", "1.", ":", "@", "@:", "$", "#", "!", "*", "?", "\\", "%", "%e", "matrix:", "mxc://",
+];
 const DELIM_KINDS: [&str; 3] = ["delim_double", "delim_empty", "seg_long"];
 const ANCHOR_KINDS: [&str; 3] = ["anchor_self", "anchor_last", "anchor_empty"];
 
@@ -141,6 +145,22 @@ pub fn apply(kind: &str, traits: u32, data: &mut Vec<u8>, other: &[u8], t: &mut 
             data.truncate(i);
             true
         }
+        "truncate_at_delim" => {
+            // cut right before or right after an occurrence of a delimiter (line ends, path and
+            // grammar punctuation): what a length-limited or line-oriented hop does
+            let spots: Vec<usize> = data.iter().enumerate().filter(|(_, b)| b"\n/:>-=.;,&?".contains(b)).map(|(i, _)| i).collect();
+            if spots.is_empty() {
+                return false;
+            }
+            // biased towards the last occurrences
+            let k = if t.chance(1, 2) { spots.len() - 1 - t.index(spots.len().min(3)) } else { t.index(spots.len()) };
+            let at = spots[k] + if t.chance(1, 2) { 1 } else { 0 };
+            if at == data.len() {
+                return false;
+            }
+            data.truncate(at);
+            true
+        }
         "dup_span" => {
             if data.is_empty() {
                 return false;
@@ -173,7 +193,7 @@ pub fn apply(kind: &str, traits: u32, data: &mut Vec<u8>, other: &[u8], t: &mut 
             data.splice(i..i, b.iter().copied());
             true
         }
-        "json_delete_member" | "json_dup_member" | "json_type_swap" | "json_long_string" | "json_nest" => {
+        "json_delete_member" | "json_dup_member" | "json_type_swap" | "json_long_string" | "json_nest" | "json_string_edit" => {
             let r = if http { http_body_range(data) } else { 0..data.len() };
             with_region(data, r, |d| json_mutate(kind, d, t))
         }
@@ -518,6 +538,48 @@ fn json_mutate(kind: &str, data: &mut Vec<u8>, t: &mut Tape) -> bool {
             let long = lengthen(s, len);
             JsonOp::Replace(*k, serde_json::to_string(&long).unwrap_or_else(|_| "\"\"".into()))
         }
+        "json_string_edit" => {
+            if c.strings.is_empty() {
+                return false;
+            }
+            // the little grammars live in short strings ("==2", "v1.1", "m.text"): half of the edits go to one of those
+            let short: Vec<usize> = c.strings.iter().enumerate().filter(|(_, (_, s))| !s.is_empty() && s.len() <= 6).map(|(i, _)| i).collect();
+            let pick = if !short.is_empty() && t.chance(1, 2) { short[t.index(short.len())] } else { t.index(c.strings.len()) };
+            let (k, s) = &c.strings[pick];
+            let chars: Vec<char> = s.chars().collect();
+            let n = 1 + t.below(2) as usize;
+            let edited: String = match t.below(8) {
+                0 => chars.iter().take(n).collect(),
+                1 => chars.iter().skip(n).collect(),
+                2 => chars.iter().take(chars.len().saturating_sub(n)).collect(),
+                3 => {
+                    // up to (and perhaps including) the first character that is not alphanumeric
+                    let cut = chars.iter().position(|c| !c.is_alphanumeric()).map(|p| p + t.below(2) as usize).unwrap_or(chars.len());
+                    chars.iter().take(cut).collect()
+                }
+                4 => {
+                    let mut e: String = chars.iter().collect();
+                    e.push('\u{e9}');
+                    e
+                }
+                5 => {
+                    let mut c2 = chars.clone();
+                    if c2.len() >= 2 {
+                        c2[1] = '\u{e9}';
+                    } else {
+                        c2.push('\u{e9}');
+                    }
+                    c2.into_iter().collect()
+                }
+                6 => {
+                    // the leading operator / sigil alone
+                    let cut = chars.iter().position(|c| c.is_alphanumeric()).unwrap_or(chars.len());
+                    chars.iter().take(cut.max(1).min(chars.len())).collect()
+                }
+                _ => STRING_TOKENS[t.index(STRING_TOKENS.len())].to_string(),
+            };
+            JsonOp::Replace(*k, serde_json::to_string(&edited).unwrap_or_else(|_| "\"\"".into()))
+        }
         "json_nest" => {
             let k = t.index(c.nodes);
             let depth = NEST_DEPTHS[t.index(NEST_DEPTHS.len())];
@@ -644,9 +706,34 @@ fn delim_mutate(kind: &str, data: &mut Vec<u8>, t: &mut Tape) -> bool {
 #[cfg(test)]
 mod tests {
     use super::*;
+    /// Reach of the string-edit mutator: short grammar strings inside an HTTP body lose their
+    /// leading characters / collapse to an operator often enough to matter.
+    #[test]
+    fn string_edit_reaches_short_grammar_strings() {
+        let seed = b"200\nContent-Type: application/json\n\n{\"versions\":[\"r0.6.1\",\"v1.1\",\"v1.11\"],\"is\":\"==2\"}".to_vec();
+        let (mut dotted, mut lone_eq, mut changed) = (0, 0, 0);
+        for i in 0..4000u64 {
+            let mut t = Tape::generate(simcore::tape::run_seed(7, i));
+            let mut d = seed.clone();
+            if apply("json_string_edit", T_HTTP | T_BYTES, &mut d, &[], &mut t) && d != seed {
+                changed += 1;
+                let text = String::from_utf8_lossy(&d).to_string();
+                if text.contains("\".1") || text.contains("\".6.1") || text.contains("\".\"") {
+                    dotted += 1;
+                }
+                if text.contains("\"is\":\"=\"") || text.contains("\"is\":\"=\u{e9}") {
+                    lone_eq += 1;
+                }
+            }
+        }
+        assert!(changed > 3000, "changed {changed}");
+        assert!(dotted > 40, "dotted {dotted}");
+        assert!(lone_eq > 40, "lone_eq {lone_eq}");
+    }
+
     #[test]
     fn lengthen_exact() {
         assert_eq!(lengthen("@alice:example.org", 255).len(), 255);
-        assert!(lengthen("@alice:example.org", 255).ends_with(":example.org"));
+        assert!(lengthen("@alice:example.org", 255).starts_with("@alice:example") && lengthen("@alice:example.org", 255).ends_with(".org"));
     }
 }
